@@ -782,6 +782,39 @@ DRV_OP(getlink) {
         throw ProtoError("getlink rel " + rel);
     });
 }
+// getlinkh <slot> <rel> <holder> <how name|id|idof|idx> <key> => ok <id|~>
+// like getlink, and the entity obtained THROUGH THE HOLDER is kept in <slot> (a second route to the same entity)
+DRV_OP(getlinkh) {
+    if (a.size() != 6) throw ProtoError("getlinkh arity");
+    return guarded([&]() {
+        const std::string &rel = a[2]; Ent &h = slot(a[3]); bool byIdx = a[4] == "idx";
+        std::string key = byIdx ? "" : keyStr(a[4], a[5]); size_t i = byIdx ? (size_t) tokNat(a[5]) : 0;
+        Ent e;
+        if (rel == "ref") { e.kind = 'A'; e.a = h.kind == 'T' ? (byIdx ? h.t.getReference(i) : h.t.getReference(key)) : (byIdx ? h.m.getReference(i) : h.m.getReference(key)); }
+        else if (rel == "src") {
+            e.kind = 'O';
+            switch (h.kind) {
+            case 'A': e.o = byIdx ? h.a.getSource(i) : h.a.getSource(key); break;
+            case 'D': e.o = byIdx ? h.d.getSource(i) : h.d.getSource(key); break;
+            case 'T': e.o = byIdx ? h.t.getSource(i) : h.t.getSource(key); break;
+            case 'M': e.o = byIdx ? h.m.getSource(i) : h.m.getSource(key); break;
+            case 'G': e.o = byIdx ? h.g.getSource(i) : h.g.getSource(key); break;
+            default: throw ProtoError("src holder");
+            }
+        } else if (rel == "mA") { e.kind = 'A'; e.a = byIdx ? h.g.getDataArray(i) : h.g.getDataArray(key); }
+        else if (rel == "mD") { e.kind = 'D'; e.d = byIdx ? h.g.getDataFrame(i) : h.g.getDataFrame(key); }
+        else if (rel == "mT") { e.kind = 'T'; e.t = byIdx ? h.g.getTag(i) : h.g.getTag(key); }
+        else if (rel == "mM") { e.kind = 'M'; e.m = byIdx ? h.g.getMultiTag(i) : h.g.getMultiTag(key); }
+        else if (rel == "meta") {
+            e.kind = 'S';
+            switch (h.kind) { case 'B': e.s = h.b.metadata(); break; case 'O': e.s = h.o.metadata(); break; case 'A': e.s = h.a.metadata(); break;
+                case 'D': e.s = h.d.metadata(); break; case 'T': e.s = h.t.metadata(); break; case 'M': e.s = h.m.metadata(); break;
+                case 'G': e.s = h.g.metadata(); break; default: throw ProtoError("meta holder"); }
+        } else throw ProtoError("getlinkh rel " + rel);
+        state().slots[a[1]] = e;
+        return isSome(e) ? entId(e) : std::string("~");
+    });
+}
 // countlink <rel> <holder>  ;  listlink <rel> <holder>
 DRV_OP(countlink) {
     if (a.size() != 3) throw ProtoError("countlink arity");
